@@ -73,7 +73,7 @@ def cases(tier, seed):
     A = rs("j/a", [["string", "s"], ["varint", "n"]], ["'va'", "1"], _source="'origin-a'", _classification="'cls-a'")
     A2 = rs("j/a", [["varint", "n"], ["bytes", "b"]], ["2", "b'zz'"])
     B = rs("j/b", [["datetime", "ts"], ["string[]", "l"]], ["dt(2020,1,1,tz=UTC)", "['x']"])
-    for gen in ([["hot", nn, form] for nn in ((140, 1030) if tier != "thorough" else (140, 300, 1030, 4100)) for form in ("plain",)]
+    for gen in ([["hot", nn, form] for nn in ((140, 1030, 2100) if tier != "thorough" else (140, 300, 1030, 2100, 4100)) for form in ("plain",)]
                 + [["manytypes", 260, fl] for fl in ("names", "fields", "both")]
                 + [["bigfirst", sz, form] for sz in (65536 - 64, 65536, 100000) for form in ("plain",)]
                 + [["periodic", pat, 1030] for pat in (["A", "A2"], ["K1", "K2"], ["U1", "U2"], ["AL1", "AL2"])]):
